@@ -345,78 +345,129 @@ func c14Baseline(c *Ctx, p *Prog) {
 	site := p.pos(fn.Pos())
 	baselineF := p.Field(btabRel, "TableCell", "Baseline")
 	sampleF := p.Field(btabRel, "TableCell", "Sample")
-	// baseline key: element 0 of a sorted key list
-	okBase := false
-	var baseKey ssa.Value
-	eachInstr(fn, func(_ *ssa.BasicBlock, in ssa.Instruction) {
-		u, ok := in.(*ssa.UnOp)
-		if !ok || u.Op != token.MUL {
-			return
-		}
-		ia, ok := u.X.(*ssa.IndexAddr)
+	// baseline key: element 0 of the sorted column keys — the sorted list itself, or a field (Table.Cols) that only ever
+	// receives it
+	sortedCols := func(v ssa.Value) bool {
+		call, ok := v.(*ssa.Call)
 		if !ok {
-			return
-		}
-		if k, ok := constInt(ia.Index); !ok || k != 0 {
-			return
-		}
-		call, ok := ia.X.(*ssa.Call)
-		if !ok || recvName(u.Type()) != "Key" {
-			return
+			return false
 		}
 		sc := call.Call.StaticCallee()
 		if sc == nil {
-			return
+			return false
 		}
 		if o := sc.Origin(); o != nil {
 			sc = o // a generic helper: read the generic body
 		}
-		// the callee sorts what it returns
 		sorts := false
 		eachInstr(sc, func(_ *ssa.BasicBlock, in2 ssa.Instruction) {
 			if c2, ok := in2.(*ssa.Call); ok && objIs(calleeObj(&c2.Call), bprocPkg, "", "SortKeys") {
 				sorts = true
 			}
 		})
-		// and it is called on the table's columns
-		if f, _ := loadOfField(call.Call.Args[0]); f != nil && f.Name() == "cols" && sorts {
-			okBase = true
-			baseKey = u
+		if len(call.Call.Args) == 0 {
+			return false
 		}
-	})
+		f, _ := loadOfField(call.Call.Args[0])
+		return f != nil && f.Name() == "cols" && sorts
+	}
+	var isSortedCols func(v ssa.Value, d int) bool
+	isSortedCols = func(v ssa.Value, d int) bool {
+		if d > 3 {
+			return false
+		}
+		if sortedCols(v) {
+			return true
+		}
+		if fld, _ := loadOfField(v); fld != nil {
+			n, all := 0, true
+			for _, g := range p.Funcs(btabRel) {
+				for _, st := range storesToField(g, fld) {
+					n++
+					if !isSortedCols(st.Val, d+1) {
+						all = false
+					}
+				}
+			}
+			return n > 0 && all
+		}
+		return false
+	}
+	okBase := false
+	baseKeys := map[ssa.Value]bool{}
+	for _, g := range p.Funcs(btabRel) {
+		eachInstr(g, func(_ *ssa.BasicBlock, in ssa.Instruction) {
+			u, ok := in.(*ssa.UnOp)
+			if !ok || u.Op != token.MUL || recvName(u.Type()) != "Key" {
+				return
+			}
+			ia, ok := u.X.(*ssa.IndexAddr)
+			if !ok {
+				return
+			}
+			if k, ok := constInt(ia.Index); !ok || k != 0 {
+				return
+			}
+			if isSortedCols(ia.X, 0) {
+				okBase = true
+				baseKeys[u] = true
+			}
+		})
+	}
 	c.Check(okBase, R, "baseline:first-sorted-column", site, "the baseline is the first of the sorted column keys", "the baseline column is not element 0 of the sorted column keys: deltas are computed against an arbitrary column")
+	isBaseKey := func(v ssa.Value) bool {
+		if baseKeys[v] {
+			return true
+		}
+		for k := range baseKeys {
+			if sameValue(v, k) {
+				return true
+			}
+		}
+		return false
+	}
 	// cell.Baseline is the cell of the same row in the baseline column
 	okLink := false
-	for _, st := range storesToField(fn, baselineF) {
-		if ex, ok := st.Val.(*ssa.Extract); ok {
-			if lk, ok := ex.Tuple.(*ssa.Lookup); ok {
-				// key literal {k.Row, baselineCfg}
-				if la := loadAddr(lk.Index); la != nil {
-					if al, ok := la.(*ssa.Alloc); ok {
-						rowOK, colOK := false, false
-						for _, r := range *al.Referrers() {
-							if fa, ok := r.(*ssa.FieldAddr); ok {
-								f, _ := fieldOfAddr(fa)
-								for _, r2 := range *fa.Referrers() {
-									if s2, ok := r2.(*ssa.Store); ok {
-										if f.Name() == "Col" && (s2.Val == baseKey || sameValue(s2.Val, baseKey)) {
-											colOK = true
-										}
-										if f.Name() == "Row" {
-											if lf, _ := loadOfField(s2.Val); lf != nil && lf.Name() == "Row" {
-												rowOK = true
+	nLink := 0
+	for _, g := range p.Funcs(btabRel) {
+		for _, st := range storesToField(g, baselineF) {
+			nLink++
+			if ex, ok := st.Val.(*ssa.Extract); ok {
+				if lk, ok := ex.Tuple.(*ssa.Lookup); ok {
+					// key literal {k.Row, baselineCfg}
+					if la := loadAddr(lk.Index); la != nil {
+						if al, ok := la.(*ssa.Alloc); ok {
+							rowOK, colOK := false, false
+							for _, r := range *al.Referrers() {
+								if fa, ok := r.(*ssa.FieldAddr); ok {
+									f, _ := fieldOfAddr(fa)
+									for _, r2 := range *fa.Referrers() {
+										if s2, ok := r2.(*ssa.Store); ok {
+											if f.Name() == "Col" && isBaseKey(s2.Val) {
+												colOK = true
+											}
+											if f.Name() == "Row" {
+												if lf, _ := loadOfField(s2.Val); lf != nil && lf.Name() == "Row" {
+													rowOK = true
+												}
+												if fv, ok := s2.Val.(*ssa.Field); ok {
+													if lf, _ := fieldOfVal(fv); lf != nil && lf.Name() == "Row" {
+														rowOK = true
+													}
+												}
 											}
 										}
 									}
 								}
 							}
+							okLink = rowOK && colOK
 						}
-						okLink = rowOK && colOK
 					}
 				}
 			}
 		}
 	}
+	okLink = okLink && nLink == 1
 	c.Check(okLink, R, "baseline:same-row", site, "a cell's baseline is the cell of the same row in the baseline column", "a cell's baseline is not looked up under (this row, baseline column)")
 	// Compare(baseline sample, cell sample)
 	n := 0
